@@ -199,7 +199,9 @@ func runVdrProperty(c *Ctx, prop string) {
 			stats[k] += v
 		}
 		sp := mk(fmt.Sprint("gen", i), src, mode, c.Seed*1000003+int64(i))
-		if c.Rng.Intn(4) == 0 { // interruption and restart
+		if c.Rng.Intn(6) == 0 { // a chunk fails, mrp is restarted, the chunk is retried
+			sp.FailChunk = true
+		} else if c.Rng.Intn(4) == 0 { // interruption and restart
 			sp.CrashAt = []int{4 + c.Rng.Intn(25)}
 			if c.Rng.Intn(2) == 0 {
 				sp.CrashAt = append(sp.CrashAt, 30+c.Rng.Intn(40))
@@ -302,7 +304,12 @@ func runVdrProperty(c *Ctx, prop string) {
 		replies := c.Drv.AskBatch(reqs)
 		for i, ck := range checks {
 			r.hist("model-check-" + ck.Name)
-			if replies[i] != ck.Expect {
+			got, want := replies[i], ck.Expect
+			if ck.DiskOnly {
+				got = strings.SplitN(got, " fileargs=", 2)[0]
+				want = strings.SplitN(want, " fileargs=", 2)[0]
+			}
+			if got != want {
 				r.violate(Violation{Kind: "correspondence", Key: prop + ":model:" + ck.Name, What: ck.What,
 					Input: map[string]interface{}{"spec": specs[owners[i]], "request": ck.Req},
 					Impl:  ck.Expect, Model: replies[i], Broken: "Vdr." + ck.Name})
